@@ -1,6 +1,7 @@
 package sym
 
 import (
+	"crypto/sha1"
 	"go/types"
 
 	"golang.org/x/tools/go/ssa"
@@ -59,5 +60,64 @@ func init() {
 		st[0] = args[0]
 		*cell = st
 		return Tuple{cell, Iface{}}
+	})
+}
+
+func init() {
+	// gobwas/ws zero-copy conversions (unsafe): modelled as ordinary conversions.
+	reg("github.com/gobwas/ws.strToBytes", func(m *Machine, fn *ssa.Function, args []Value) Value {
+		return m.strToBytes(args[0].(Str))
+	})
+	reg("github.com/gobwas/ws.btsToString", func(m *Machine, fn *ssa.Function, args []Value) Value {
+		s, _ := args[0].(Slice)
+		return m.bytesToStr(s)
+	})
+}
+
+func init() {
+	// crypto/sha1.Sum on concrete bytes (WebSocket accept key): computed natively.
+	reg("crypto/sha1.Sum", func(m *Machine, fn *ssa.Function, args []Value) Value {
+		s, _ := args[0].(Slice)
+		buf := make([]byte, len(s))
+		for i, v := range s {
+			t := m.asTerm(v)
+			if !t.IsConst() {
+				m.unsupported("sha1.Sum of symbolic bytes")
+			}
+			buf[i] = byte(t.Val)
+		}
+		sum := sha1.Sum(buf)
+		out := make(Array, len(sum))
+		for i, b := range sum {
+			out[i] = m.C.BV(8, uint64(b))
+		}
+		return out
+	})
+}
+
+func init() {
+	// protojson: redirected to the harness's model (model_protojson.go). Natively the real codec runs.
+	call := func(m *Machine, name string, args ...Value) Value {
+		f := m.Prog.Func(name)
+		if f == nil {
+			m.unsupported(name + " not defined by the harness")
+		}
+		return m.callFn(f, args, nil)
+	}
+	pj := "google.golang.org/protobuf/encoding/protojson"
+	reg(pj+".Unmarshal", func(m *Machine, fn *ssa.Function, args []Value) Value {
+		return call(m, "vfPJUnmarshal", args[0], args[1])
+	})
+	reg("("+pj+".UnmarshalOptions).Unmarshal", func(m *Machine, fn *ssa.Function, args []Value) Value {
+		return call(m, "vfPJUnmarshal", args[1], args[2])
+	})
+	reg(pj+".Marshal", func(m *Machine, fn *ssa.Function, args []Value) Value {
+		return call(m, "vfPJMarshalAppend", Slice(nil), args[0])
+	})
+	reg("("+pj+".MarshalOptions).Marshal", func(m *Machine, fn *ssa.Function, args []Value) Value {
+		return call(m, "vfPJMarshalAppend", Slice(nil), args[1])
+	})
+	reg("("+pj+".MarshalOptions).MarshalAppend", func(m *Machine, fn *ssa.Function, args []Value) Value {
+		return call(m, "vfPJMarshalAppend", args[1], args[2])
 	})
 }
